@@ -33,7 +33,11 @@ MANIFEST = {
             "elements and metadata attributes, values, order - also when two modules share a prefix (since 91f0178 the second "
             "one gets a numbered prefix; the former C12_xml_doc_prefix_clash_refuted is the positive Example "
             "C12_xml_doc_prefix_clash_regression) - for metadata keys distinct per node (C12_xml_doc_dup_meta_refuted); several top-level nodes are well-formed content, "
-            "not a document (C12_xml_doc_std_siblings_refuted). C12_json_doc_std / _sel / _checked: an RFC 8259 reader (grammar of "
+            "not a document (C12_xml_doc_std_siblings_refuted). C12_xml_doc_start_tags: the namespace law of the start tags on the "
+            "printer itself (no prefix defined twice in a tag or re-defined in the scope, default namespace = module of the "
+            "node, the prefix of every metadata attribute bound in scope to the namespace of its annotation's module) - the "
+            "law QNamesX checks on libyang's bytes; the definitions for prefixes INSIDE values (identityref, "
+            "instance-identifier, xpath1.0; e9b7253) are outside the model, which holds canonical strings only. C12_json_doc_std / _sel / _checked: an RFC 8259 reader (grammar of "
             "sections 2-7 + StdText strings) applied to json_print (the transcription of printer_json.c with its state) for "
             "EVERY node selection recovers the RFC 7951 value of the selected part of the forest (qualifiers, arrays, string / "
             "literal classes, [null], RFC 7952 metadata objects), through C01_json_print_is_rfc7951 (the state machine prints "
